@@ -197,7 +197,20 @@ class C17:
                 if callkw(e_.term).get("fill_value") != fill:
                     ctx.bad("R17.6", self.file, "extend_dim_width", f"reindex(fill_value={show(callkw(e_.term).get('fill_value', NONE))}) under {show(e_.live)[-50:]}",
                             "new samples must be filled with the caller's fill_value on every path (this reindex does not receive it)", e_.lineno)
-        if len(re) != 1:
+        newc_by_pos = None
+        if len(re) > 1:
+            # one reindex per position (guard clauses with early returns): the new axis as a function of the position
+            by = {}
+            for position in ("start", "center", "end"):
+                livep = [e_ for e_ in re if peval(e_.live, {pos: position}) != ("const", False)]
+                idx_ = livep[0].term[2][0] if len(livep) == 1 and livep[0].term[2] else None
+                if idx_ is None or not (idx_[0] == "dict" and len(idx_[1]) == 1 and idx_[1][0][0] == dim):
+                    by = None
+                    break
+                by[position] = idx_[1][0][1]
+            if by is not None:
+                newc_by_pos = ("ite", ("cmp", "eq", pos, ("const", "start")), by["start"], ("ite", ("cmp", "eq", pos, ("const", "end")), by["end"], by["center"]))
+        if len(re) != 1 and newc_by_pos is None:
             ctx.undec("R17.6", site, "array.reindex(...) not found" if not re else f"{len(re)} reindex calls (one per position): the placement is not read in this form")
             return
         rk = callkw(re[0].term)
@@ -210,6 +223,8 @@ class C17:
         newc = None
         if idx is not None and idx[0] == "dict" and len(idx[1]) == 1 and idx[1][0][0] == dim:
             newc = idx[1][0][1]
+        if newc_by_pos is not None:
+            newc = newc_by_pos
         if newc is None:
             ctx.undec("R17.6", site, "reindex target is not {dim: coords}")
             return
@@ -532,11 +547,25 @@ class C17:
         site = f"{self.file}:{s.node.lineno} crop_dim_width"
         data = ("attr", ("sub", ("attr", arr, "coords"), dim), "data")
         sel = [e for e in s.calls if e.term[1] == ("attr", arr, "sel")]
-        if len(sel) != 1:
+        cterm = None
+        if len(sel) > 1:
+            # one selection per position (guard clauses with early returns): the selected coordinates as a function of the position
+            by = {}
+            for position in ("start", "center", "end"):
+                livep = [e_ for e_ in sel if peval(e_.live, {pos: position}) != ("const", False)]
+                a_ = livep[0].term[2][0] if len(livep) == 1 and livep[0].term[2] else None
+                if a_ is None or not (a_[0] == "dict" and len(a_[1]) == 1 and a_[1][0][0] == dim):
+                    by = None
+                    break
+                by[position] = a_[1][0][1]
+            if by is not None:
+                cterm = ("ite", ("cmp", "eq", pos, ("const", "start")), by["start"], ("ite", ("cmp", "eq", pos, ("const", "end")), by["end"], by["center"]))
+        if len(sel) != 1 and cterm is None:
             ctx.undec("R17.5", site, "array.sel(...) not found")
             return
         a0 = sel[0].term[2][0]
-        cterm = a0[1][0][1] if a0[0] == "dict" and len(a0[1]) == 1 and a0[1][0][0] == dim else None
+        if cterm is None:
+            cterm = a0[1][0][1] if a0[0] == "dict" and len(a0[1]) == 1 and a0[1][0][0] == dim else None
         if cterm is None:
             ctx.undec("R17.5", site, "selection is not {dim: coords}")
             return
